@@ -183,7 +183,7 @@ Definition parse_call_args (data : list N) (max_parameter_size : N) : M1 interru
   let index := firstnN 8 data in
   let subindex := firstnN 8 (skipnN 8 data) in
   ensure (18 <=? lenN data) ;;;
-  let parameter_len := le_val (firstnN 2 (skipnN 16 data)) in
+  let parameter_len := u16 (le_val (firstnN 2 (skipnN 16 data))) in
   ensure (negb (max_parameter_size <? parameter_len)) ;;;
   tick (copy_parameter_cost parameter_len) ;;;
   let start := 18 in
@@ -193,7 +193,7 @@ Definition parse_call_args (data : list N) (max_parameter_size : N) : M1 interru
   emit (EvCopy parameter_len) ;;;
   (* name: u16 length; (fix) rejected when >= MAX_FUNC_NAME_SIZE before any byte of it is read *)
   ensure (end_ + 2 <=? lenN data) ;;;
-  let name_len := le_val (firstnN 2 (skipnN end_ data)) in
+  let name_len := u16 (le_val (firstnN 2 (skipnN end_ data))) in
   ensure (name_len <? 100) ;;;
   ensure (end_ + 2 + name_len <=? lenN data) ;;;
   name <- vslice data (end_ + 2) (end_ + 2 + name_len) ;;
